@@ -17,6 +17,7 @@ Spec / monitors (used to JUDGE the real code, never the model): the property sta
 `Spec.matrixA` / `Spec.projector` (op vmat spec, hand-written, no regenerated term) on the data of the REQUESTED frame;
 row sums of the returned array with a tolerance scaled by the magnitudes."""
 import hashlib
+import json
 import logging
 import math
 import os
@@ -455,15 +456,27 @@ def run_cal(run, cases, count=True):
                 sf.append((c, j[0], j[1]))
             raws = [freud_raw(lb[t], lp[t]) for t in range(c["T"])]
             bad = [raw_contract(nl, w, vol, c["N"], box_volume(c["frames"][t], c["ndim"])) for t, (nl, w, vol) in enumerate(raws)]
+            freud_bad = None
             if any(bad):
-                run.coverage["skipped_freud_contract"] = run.coverage.get("skipped_freud_contract", 0) + 1
-                run.coverage.setdefault("freud_contract_failures", []).append(str(next(b for b in bad if b))[:200])
-                continue
+                first = str(next(b for b in bad if b))
+                run.coverage.setdefault("freud_contract_failures", [])
+                if count and len(run.coverage["freud_contract_failures"]) < 20:
+                    run.coverage["freud_contract_failures"].append(first[:200])
+                if not all(b is None or b.startswith("bond ") for b in bad):
+                    # shapes / order / coverage / volume sum broken by freud itself: nothing about pymattersim can be judged
+                    if count:
+                        run.coverage["skipped_freud_contract"] = run.coverage.get("skipped_freud_contract", 0) + 1
+                    continue
+                # a face reported from one of the two cells only: the files can only mirror it (C20_symmetry_preserved);
+                # everything else is still compared and judged, the asymmetry is attributed to freud
+                freud_bad = first
+                if count:
+                    run.coverage["freud_one_sided_faces"] = run.coverage.get("freud_one_sided_faces", 0) + 1
             files, err, mutated = real_cal(c, tmp)
-            pend.append((c, raws, files, err, mutated))
-        outs = common.drive([op_vrender(c, raws) for c, raws, _, _, _ in pend]) if pend else []
+            pend.append((c, raws, files, err, mutated, freud_bad))
+        outs = common.drive([op_vrender(c, raws) for c, raws, _, _, _, _ in pend]) if pend else []
         rd = []
-        for (c, raws, files, err, mutated), o in zip(pend, outs):
+        for (c, raws, files, err, mutated, freud_bad), o in zip(pend, outs):
             if o == "bad-op":
                 raise common.Infra("driver rejected vrender")
             mfiles, merr = parse_vrender(o)
@@ -485,7 +498,11 @@ def run_cal(run, cases, count=True):
                                        f"{b[kk] if kk < len(b) else None} ({len(a)} vs {len(b)} lines)"))
                         break
             j = judge_files(c, files, raws)
-            if j:
+            if freud_bad and (j is None or j[0] in ("symmetric", "weights-equal")):
+                sf.append((c, "cal_neighbors:freud-one-sided-face",
+                           f"{c['ndim']}D, {c['N']} particles: freud's own neighbour list is not symmetric ({freud_bad}) and the written "
+                           f"files reproduce it faithfully" + (f": {j[1]}" if j else "")))
+            elif j:
                 sf.append((c, "cal_neighbors:" + j[0], j[1]))
             if count:
                 run.count(op_vrender(c, raws)[:2000], c["T"] > 1 or c["origin"] != "zero",
@@ -755,6 +772,7 @@ def run_cases(run, cases, count=True):
 def correspond(run):
     ncal, nvm = (60, 10) if run.tier == "quick" else (1500, 150)
     cases = common.load_corpus(PROP)
+    run.coverage["corpus_cases"] = len(cases)
     cases += [gen_cal(run.rng) for _ in range(ncal)] + [gen_vm(run.rng) for _ in range(nvm)]
     dis, sf = run_cases(run, cases)
     run.coverage["traces_validated_against_impl"] = run.coverage["evaluations"]
@@ -770,12 +788,17 @@ def correspond(run):
 
 def failing(run, c):
     """does the REAL code contradict the property statement on this input?  -> [(key, message)]"""
+    memo = run.__dict__.setdefault("_c20_memo", {})
+    ck = common.sha(json.dumps(c, sort_keys=True))
+    if ck in memo:
+        return memo[ck]
     _, sf = run_cases(run, [c], count=False)
     out, seen = [], set()
     for _, k, msg in sf:
         if k not in seen:
             seen.add(k)
             out.append(("C20:" + k, msg))
+    memo[ck] = out
     return out
 
 
@@ -824,19 +847,28 @@ def shrink(run, c, key):
 def search(run, broken):
     unexplained, tried = [], 0
     seen = set()
+    gen_pool = None
     for b in broken:
         found = False
         pool = list(b.get("cases", []))
         if not pool:
-            pool = [gen_cal(run.rng) for _ in range(30)] + [gen_vm(run.rng) for _ in range(6)]
+            if gen_pool is None:
+                gen_pool = [gen_cal(run.rng) for _ in range(30)] + [gen_vm(run.rng) for _ in range(6)]
+            pool = gen_pool
         for c in pool:
             tried += 1
             fs = failing(run, c)
             for key, msg in fs:
-                found = True
+                listed = any(e["key"] == key for e in run.known)
+                # a listed finding explains the monitor that reported it, never a broken theorem / translator
+                if not listed or b["kind"] == "monitor":
+                    found = True
                 if key in seen:
                     continue
                 seen.add(key)
+                if listed:
+                    run.violation(key, msg, {"case": c, "broken": b["name"]})     # no shrinking, no replay file
+                    continue
                 c2 = shrink(run, c, key)
                 msg2 = next((m for k, m in failing(run, c2) if k == key), msg)
                 run.violation(key, msg2, {"case": c2, "broken": b["name"]})
